@@ -28,7 +28,7 @@ def unit_svf():
     g = rewrite(g, [(r'for \(const auto& i : svf\) if \(i\.str == s\) return i\.id;', 'for (size_t verif_k = 0; verif_k < svf_count; ++verif_k) { const script_verify_flag i = svf_get(verif_k); if (i.str == s) return i.id; }', 1)])
     t += g
     p = block('btcdeb.cpp', r'^static unsigned int svf_parse_flags\(unsigned int in_flags, const char\* mod\)', trailing=None)
-    p = rewrite(p, [(r'exit\(1\);', 'VERIF_EXIT(1);', 2)])
+    p = rewrite(p, [(r'exit\(1\);', 'VERIF_EXIT(1);', '+')])
     t += p
     t += '\n#include "h_svf.h"\n'
     return t
